@@ -11,6 +11,7 @@
   every parameter in the stated range, every chain depth; sources may be endless (`Seq`).
 -/
 import ALV.Lemmas.C02Top
+import ALV.Lemmas.C02Stop
 import ALV.Common.Audit
 
 namespace ALV.Props.C02
@@ -309,6 +310,127 @@ theorem need_event_source (delta : Rat) (zero : α) (xs : List α) (k : Nat)
   have := hasNeed_smixS delta zero xs k (by rw [smixStart_eq]; exact hlen)
   rwa [smixStart_eq] at this
 
+/-! ## 7. Stages that END while the source goes on (`limit`, `islice` with a stop, `takewhile`, any
+`break` / `return` in the loop), requests PAST the end, spelled counts, `attack`
+
+`StopStage` = a `Stage` plus an exit test evaluated before every read.  `X.probe xs K` lists for
+each of `K` requests — failed ones (StopIteration) included — whether an output came and the pull
+counter afterwards; `X.cut xs` is the position in `xs` at which the exit test becomes true. -/
+
+/-- **C02.7a** (truncation) a stage with an exit test cannot tell its source from the source cut
+at the exit point: same outputs, same failures, same pull counters at every request — also at the
+requests made after the end.  Whatever follows the cut (more items, the end, an item that raises
+when read) is never touched. -/
+theorem stop_truncates (X : StopStage ι ο σ) (xs : List ι) (K : Nat) :
+    X.probe (xs.take (X.cut xs)) K = X.probe xs K :=
+  StopStage.probeFrom_trunc X K X.base.start xs
+
+/-- **C02.7b** the pull counter never exceeds the cut, however often the stage is asked. -/
+theorem stop_reads_at_most_cut (X : StopStage ι ο σ) (xs : List ι) (K : Nat) (p : Bool × Nat)
+    (hp : p ∈ X.probe xs K) : p.2 ≤ X.cut xs ∧ X.cut xs ≤ xs.length := by
+  refine ⟨?_, StopStage.cutFrom_le X xs _⟩
+  rw [← stop_truncates] at hp
+  have := StopStage.probeFrom_le X K X.base.start _ p hp
+  have hl : (xs.take (X.cut xs)).length ≤ X.cut xs := by rw [List.length_take]; omega
+  have h0 : X.base.start.nread = 0 := rfl
+  omega
+
+/-- **C02.7b'** (non-interference for stopping stages) when the stage leaves its loop before the
+source ends, any other source with the same items in front of the exit point — continuing
+differently, ending there, raising there — gives the same outputs, the same failures and the same
+pull counters, at every request including those past the end. -/
+theorem stop_nonInterference (X : StopStage ι ο σ) (xs ys : List ι) (K : Nat)
+    (hcut : X.cut xs < xs.length) (hagree : xs.take (X.cut xs) = ys.take (X.cut xs)) :
+    X.probe ys K = X.probe xs K := by
+  have hc : X.cut ys = X.cut xs := StopStage.cutFrom_congr X xs ys _ hcut hagree
+  rw [← stop_truncates X ys, ← stop_truncates X xs, hc, hagree]
+
+/-- **C02.7c** (asked past the end, any number of times) once a request has failed, every further
+request fails and the pull counter stays where it was: a finished stage never touches its source
+again.  `c` is any configuration the stage is in. -/
+theorem asked_past_the_end (X : StopStage ι ο σ) (K : Nat) (c : Stage.Cfg σ ο) (xs : List ι)
+    (h : (X.demand c xs).1 = none) :
+    X.probeFrom (K + 1) c xs = List.replicate (K + 1) (false, (X.demand c xs).2.1.nread) :=
+  StopStage.probeFrom_after_fail X K c xs h
+
+/-- **C02.7d** a stage without exit test is the plain protocol of sections 2–5: its successful
+requests are `S.pulls`. -/
+theorem never_is_plain (S : Stage ι ο σ) (xs : List ι) (K : Nat) :
+    (((StopStage.never S).probe xs K).filter (·.1)).map (·.2) = S.pulls xs K :=
+  StopStage.probeFrom_never S K S.start xs
+
+/-- **C02.7e** `Stream.limit(N)` (`islice(data, N)`): request `k+1` delivers iff `k < min N |xs|`
+and the source has been read `min (k+1) (min N |xs|)` times — exactly `k+1` while the limit is
+not reached, `N` ever after; never `N + 1`. -/
+theorem limit_probe (N : Nat) (xs : List α) (K : Nat) :
+    (limitX N).probe xs K =
+      (List.range K).map (fun k => (decide (k < min N xs.length), min (k + 1) (min N xs.length))) := by
+  have := probeFrom_limitX (α := α) N K N 0 xs
+  simp only [Nat.zero_add] at this
+  have hs : (limitX (α := α) N).base.start = ⟨((), N), [], 0, false⟩ := by
+    simp [Stage.start, limitX, StopStage.cap, StopStage.never, mapS]
+  unfold StopStage.probe
+  rw [hs]
+  exact this
+
+/-- `limit N` needs `min k N` items for `k` requests — the closed form `needLimit` of the spec —
+on every source that has them, at every request, past the end included. -/
+theorem need_limit (N : Nat) (xs : List α) (K k : Nat) (hk : k < K) (hN : N ≤ xs.length) :
+    ((limitX N).probe xs K)[k]? = some (decide (k < N), needLimit N (k + 1)) := by
+  rw [limit_probe, List.getElem?_map, List.getElem?_range hk]
+  simp only [Option.map_some, needLimit]
+  have : min N xs.length = N := by omega
+  rw [this]
+
+/-- **C02.7e'** `takewhile(pred, seq)` whose predicate holds for the first `n` items: the failing
+item is read (request `n+1` fails having read `n+1` items) and nothing after it, however often the
+stage is asked — the closed form `needTakewhile` of the spec. -/
+theorem takewhile_probe (n : Nat) (xs : List α) (K : Nat) :
+    (takewhileX n).probe xs K =
+      (List.range K).map (fun k => (decide (k < min n xs.length), min (k + 1) (min (n + 1) xs.length))) := by
+  have := probeFrom_takewhileX (α := α) n K 0 0 xs (Nat.zero_le n)
+  simp only [Nat.zero_add, Nat.sub_zero] at this
+  exact this
+
+theorem need_takewhile (n : Nat) (xs : List α) (K k : Nat) (hk : k < K) (hn : n + 1 ≤ xs.length) :
+    ((takewhileX n).probe xs K)[k]? = some (decide (k < n), needTakewhile n (k + 1)) := by
+  rw [takewhile_probe, List.getElem?_map, List.getElem?_range hk]
+  simp only [Option.map_some, needTakewhile]
+  have h1 : min n xs.length = n := by omega
+  have h2 : min (n + 1) xs.length = n + 1 := by omega
+  rw [h1, h2]
+
+/-- **C02.7f** a stage `S` followed by `limit(c)` reads exactly what `S` needs for `c` outputs, and
+(7b) never more, however often it is asked. -/
+theorem limit_after_stage (S : Stage ι ο σ) (c : Nat) (xs : List ι) (j : Nat)
+    (h : S.need xs c = some j) : ((StopStage.never S).cap c).cut xs = j :=
+  StopStage.cutFrom_cap S c xs S.init (c - S.pre.length) j h
+
+/-- **C02.7g** the count of `limit(n)` / `skip(n)` is `max(int(round(n)), 0)`: an int is itself,
+Python's `round` of a float / Fraction is within one half of it and picks the EVEN neighbour on a
+tie (`limit(2.5)` keeps 2 items, `limit(3.5)` keeps 4). -/
+theorem count_rounding (z : Int) (q : Rat) :
+    roundCount (.int z) = .ok z.toNat ∧ roundCount (.float q) = .ok (pyRound q).toNat ∧
+    roundCount (.frac q) = .ok (pyRound q).toNat ∧ pyRound (z : Rat) = z ∧
+    ((pyRound q : Rat) - 1 / 2 ≤ q ∧ q ≤ (pyRound q : Rat) + 1 / 2) ∧
+    pyRound ((z : Rat) + 1 / 2) = (if z % 2 = 0 then z else z + 1) :=
+  ⟨rfl, rfl, rfl, pyRound_int z, pyRound_near q, pyRound_tie z⟩
+
+/-- **C02.7h** `attack(a, d, <iterable sustain>)`: nothing at construction, ONE sustain item for
+all the `n = len_a + len_d` line samples (on the first demand), then one item per output. -/
+theorem need_attack (n : Nat) (line : α → Nat → α) (xs : List α) (k : Nat)
+    (hlen : needAttack n k ≤ xs.length) :
+    (attackS n line).start.nread = 0 ∧ (attackS n line).need xs k = some (needAttack n k) :=
+  ⟨rfl, hasNeed_attackS n line xs k hlen⟩
+
+-- PENDING: the closed forms `needOfXChain` (composition of `needLimit`, `needTakewhile`,
+-- `needIsliceStop` with `needOf`) equal the protocol run of `buildXChain` for every chain with
+-- stopping stages; proved above for `limit` alone (7e) and for `S ▷ limit` (7f); the tie compares
+-- the real code with BOTH sides on every case.
+def probe_chain_eq_spec_PENDING : Prop :=
+  ∀ (ds : List XDesc), (∀ d ∈ ds, d.Valid) → ∀ (n K k : Nat), k < K → needOfXChain ds K ≤ n →
+    ((chainProbe ds n K)[k]?).map (·.2) = some (needOfXChain ds (k + 1))
+
 /-! ## non-vacuity: hypotheses satisfiable on non-trivial inputs -/
 
 example : (skipS 2 ▷ mapS (· + 1)).need [10, 20, 30, 40, 50] 2 = some 4 := by decide
@@ -344,6 +466,33 @@ example : auxNeedEvent (5 / 2) 3 = 1 ∧ auxNeedLag1 3 = 2 := by decide +kernel
 example : (blocksS 2 1 0).need [1, 2, 3, 99] 2 = some 3 ∧
     ((blocksS 2 1 0).run [1, 2, 3, 4, 5, 6]).take 2 = ((blocksS 2 1 0).run [1, 2, 3, 99]).take 2 := by
   decide
+
+/-- limit(3) asked 6 times on 5 items: three outputs, then nothing is read any more -/
+example : (limitX 3).probe [10, 20, 30, 40, 50] 6 =
+    [(true, 1), (true, 2), (true, 3), (false, 3), (false, 3), (false, 3)] := by
+  rw [limit_probe]; decide
+/-- non-interference instantiated: a source that would raise (here: differs) right after the limit -/
+example : (limitX 3).probe [10, 20, 30, 99] 5 = (limitX 3).probe [10, 20, 30, 40, 50] 5 :=
+  stop_nonInterference (limitX 3) [10, 20, 30, 40, 50] [10, 20, 30, 99] 5 (by decide) (by decide)
+example : (limitX 3).cut [10, 20, 30, 40, 50] = 3 ∧ (limitX 0).cut [10, 20] = 0 := by decide
+/-- `takewhile` reads the failing item, `islice(0, 6, 2)` reads up to its stop, not further -/
+example : (takewhileX 2).probe [1, 2, 3, 4, 5] 5 =
+    [(true, 1), (true, 2), (false, 3), (false, 3), (false, 3)] := by decide
+example : (isliceX 0 6 2).probe [1, 2, 3, 4, 5, 6, 7, 8] 5 =
+    [(true, 1), (true, 3), (true, 5), (false, 6), (false, 6)] := by decide
+example : (isliceX 5 3 1).probe [1, 2, 3, 4, 5, 6, 7, 8] 2 = [(false, 5), (false, 5)] := by decide
+example : ((StopStage.never (blocksS 2 2 0)).cap 2).cut [1, 2, 3, 4, 5, 6, 7] = 4 ∧
+    (blocksS 2 2 0).need [1, 2, 3, 4, 5, 6, 7] 2 = some 4 := by decide
+example : chainProbe [.plain (.skip 2), .limit 3, .plain (.blocks 2 2)] 20 4 =
+    [(true, 4), (true, 5), (false, 5), (false, 5)] := by decide +kernel
+example : pyRound (5 / 2) = 2 ∧ pyRound (7 / 2) = 4 ∧ pyRound (13 / 5) = 3 ∧ pyRound (-5 / 2) = -2 ∧
+    rintPos (5 / 2) = 3 := by decide +kernel
+example : roundCount (.inf false) = .error "OverflowError" ∧ roundCount .nan = .error "ValueError" ∧
+    roundCount (.bool true) = .ok 1 ∧ takeCount (.inf false) = .ok none := ⟨rfl, rfl, rfl, rfl⟩
+example : (attackS 3 (fun (x : Nat) i => x + i)).pulls [7, 8, 9] 5 = [1, 1, 1, 2, 3] ∧
+    needAttack 3 5 = 3 ∧ needAttack 0 2 = 3 := by
+  rw [pulls_eq]; decide
+example : needOfXChain [.plain (.skip 2), .limit 3, .plain (.blocks 2 2)] 2 = 5 := by decide
 
 end ALV.Props.C02
 
